@@ -97,7 +97,7 @@ PROPS = {
         "level": "proof",
         "technique": "Verus contracts on the extracted compute_checksum variants of Checksum (unbounded payload loop) + RFC 1071 algebra lemmas; Kani complete harnesses on the real crate built with --features compute_checksum",
         "level_text": "The accumulator functions (add_u16/add_u8/add_u32/accumulate_remainder/as_u16, compute_checksum variants) are verified against one's-complement addition with end-around carry for every payload length (loop invariant over an arbitrary byte iterator); lemmas: commutative monoid, the emitted field always verifies, a changed sum is always rejected. UDP (unit udpck, unbounded payload): build_udp_header emits the RFC 768 checksum of pseudo header + header + payload (odd lengths zero padded), UdpHeader::from_bytes_ipv4 accepts exactly the datagrams whose field is that checksum and whose length agrees; lemma: every emitted datagram verifies and is accepted. TCP (unit tcpck, unbounded text): TcpHeaderBuilder::build emits the RFC 1071 checksum over pseudo header, the nine header words and the text; TcpHeader::serialize emits the RFC 9293 layout; TcpHeader::from_bytes accepts exactly the complete option-less segments whose field is that checksum (either representation of zero); lemma: every emitted segment verifies and is accepted. On the compiled crate with the feature on, CBMC proves for all field values that every emitted IPv4 header verifies under RFC 1071 against an independent 32-bit reference, that conforming headers are accepted and non-verifying ones rejected.",
-        "level_note": "Trusted: Verus/Z3, Kani/CBMC; assumed spec u16::overflowing_add (validated by Kani); vstd's prophetic iterator spec for Iterator::next; termination of the payload loop not verified. TCP (header-only segments, all fields) and UDP (payload of 0..=3 octets, BOUNDED, all contents) emit/verify over the pseudo header are Kani harnesses against a 32-bit RFC 1071 reference; for longer payloads the composition is carried by the accumulator contracts + monoid lemmas, not by a whole-codec proof; a Kani twin of the payload loop is bounded (<= 5 bytes) and labelled so.",
+        "level_note": "Trusted: Verus/Z3, Kani/CBMC; assumed spec u16::overflowing_add (validated by Kani); vstd's prophetic iterator spec for Iterator::next; termination of the payload loop not verified. TCP (header-only segments; accept/reject harnesses over all fields, the emit harness BOUNDED to four values each of SEQ and ACK because CBMC gave no verdict in 90 min with both symbolic) and UDP (payload of 0..=3 octets, BOUNDED, all contents) emit/verify over the pseudo header are Kani harnesses against a 32-bit RFC 1071 reference; the unbounded statements are the Verus units udpck / tcpck; for longer payloads the composition is carried by the accumulator contracts + monoid lemmas, not by a whole-codec proof; a Kani twin of the payload loop is bounded (<= 5 bytes) and labelled so.",
         "assumptions": ["compute_checksum build configuration", "payload iterators are finite"],
         "explanation": "RFC 1071 checksum algebra and IPv4 header emit/verify",
     },
